@@ -9,12 +9,12 @@ import (
 func init() {
 	prop(&PropertySpec{
 		ID: "C11", Level: "other",
-		Rules: []string{"R11.1", "R11.2", "R11.3", "R11.4", "R11.5", "R11.6", "R11.7", "R10.3"},
+		Rules: []string{"R11.1", "R11.2", "R11.3", "R11.4", "R11.5", "R11.6", "R11.7", "R10.3", "R01.7"},
 		Explanation: "Decides the chain of local links that makes Connect's result non-nil and the reported error the right one: " +
 			"R11.1 Connect returns only doConnect's error (when retrying was refused) or ctx.Err(), never a nil constant; " +
 			"R11.2 doConnect's errors are fresh *ConnectionError values or ctx-guarded pass-throughs, with shouldRetry=false for reset/validator/ctx returns; " +
 			"R11.3 Connection.read returns the error its callback captured; R11.4 the event iterator always ends with an error yield when the parser reports one (ignoreEOF=false on the Connection path); " +
-			"R10.3 the request is sent only after resetRequest() succeeded (a failed body reset ends Connect at once); R11.5 Parser.Next returning false implies Parser.Err()!=nil (scanner exhausted or field-parser error), R11.6 a read error takes precedence over ErrUnexpectedEOF in Parser.Err, R11.7 the clean-EOF marker is set and recovered as io.EOF.",
+			"R01.7 the end of the stream is classified as clean only by identity with io.EOF (a read error that merely wraps io.EOF is still reported as itself); R10.3 the request is sent only after resetRequest() succeeded (a failed body reset ends Connect at once); R11.5 Parser.Next returning false implies Parser.Err()!=nil (scanner exhausted or field-parser error), R11.6 a read error takes precedence over ErrUnexpectedEOF in Parser.Err, R11.7 the clean-EOF marker is set and recovered as io.EOF.",
 		NotDecided: "retry-count semantics (C12); which concrete error value a transport produces; that user validators return promptly.",
 	})
 
